@@ -13,7 +13,7 @@ CHECKS = {
          "constructor / resize calls are executed on the release and the debug-assertion build and every recorded answer (result variant, "
          "width/height, every exposed row of tags) is judged by TLC against the same operators.",
     note="Trusted: TLC/Apalache, the JSON encoders of the harness (limbs, exact rationals), the lattice of inputs (not all u32 sextuples are "
-         "executed; the universal statement is about the specified arithmetic). Zero-area boxes may be accepted or rejected (documented no-op).",
+         "executed; the universal statement is about the specified arithmetic). A resize whose crop box or destination has zero area is the documented no-op (decided before the box is validated); zero-area view rectangles are judged by the strict iff (inside, borders included -> accepted).",
     design="4/C04", technique=TECH + "; Apalache lemmas over all u32"),
  "C14": dict(
     text="Views!Split (None-condition, band arithmetic, part rectangles) is model-checked exhaustively for every view in parents up to 3x3 with all "
